@@ -98,6 +98,7 @@ def cases(rng, tier):
     for _ in range(max(4, n // 5)):
         out.append({"t": "hist", "oidc": rng.random() < 0.6, "jwt": rng.random() < 0.3, "usage": "nogrant", "gen_seed": rng.getrandbits(48),
                     "n": rng.randint(8, 20), "w": dict(W, tick=16)})
+    out += _rmit_cases(rng, tier)
     return out
 
 
@@ -189,8 +190,13 @@ def oracle(c, obs):
     pending = []      # (client, code, redirect) in pending order, mirrors Runner.pending
     minted_from = {}  # code -> set of token handles delivered for it
     life = c.get("code_lifetime", 300)
+    replayed_dead = set()      # tokens delivered for a code that was presented again afterwards
     for i, st in enumerate(obs["steps"]):
         o, r = ops[i], st["raw"]
+        if o[0] == "userinfo" and o[1] in replayed_dead and r[0] == "userinfo":
+            v.append({"cls": "replay-does-not-revoke", "step": i, "token": o[1], "seen_at": "userinfo"})
+        if o[0] == "introspect" and o[2] in replayed_dead and r[0] == "introspect" and r[1]:
+            v.append({"cls": "replay-does-not-revoke", "step": i, "token": o[2], "seen_at": "introspection"})
         if o[0] == "authorize" and r[0] == "code":
             issued[r[1]] = (o[2], o[4], st["now"], life)
         elif o[0] == "tokenParse":
@@ -202,6 +208,7 @@ def oracle(c, obs):
                 for h in minted_from.get(o[2], ()):
                     if h in toks and not toks[h][5]:
                         v.append({"cls": "replay-does-not-revoke", "step": i, "token": h})
+                replayed_dead.update(minted_from.get(o[2], ()))
         elif o[0] == "tokenProcess":
             req = pending.pop(o[1]) if o[1] < len(pending) else None
             if r[0] == "tokens":
@@ -258,6 +265,26 @@ def _corpus_nogrant():
              "ops": [["authorize", "diana", "client_1", ["openid"], RED], ["tick", 301], ["tokenParse", "client_1", 1, RED], ["tokenProcess", 0],
                      ["authorize", "diana", "client_1", ["openid"], RED], ["tick", 299], ["tokenParse", "client_1", 3, RED], ["tokenProcess", 0]]}
             for oidc in (True, False)]
+
+
+def _rmit_cases(rng, tier):
+    """session_params.remove_inactive_token: the housekeeping option must not change what a replayed code does to the tokens minted from it"""
+    out = []
+    for jwt in (False, True):
+        out.append({"t": "hist", "oidc": True, "jwt": jwt, "runner": {"usage": "rmit"},
+                    "ops": [["authorize", "diana", "client_1", ["openid", "offline_access"], RED], ["tokenParse", "client_1", 1, RED], ["tokenProcess", 0],
+                            ["userinfo", 2], ["tokenParse", "client_1", 1, RED], ["userinfo", 2], ["introspect", "client_1", 2], ["introspect", "client_1", 3],
+                            ["refresh", "client_1", 3, None], ["userinfo", 2]]})
+        out.append({"t": "hist", "oidc": True, "jwt": jwt, "runner": {"usage": "rmit"},
+                    "ops": [["authorize", "bob", "client_2", ["openid", "offline_access", "email"], "https://client_2.example.com/cb"],
+                            ["tokenParse", "client_2", 1, "https://client_2.example.com/cb"], ["tokenProcess", 0], ["refresh", "client_2", 3, None],
+                            ["tokenParse", "client_2", 1, "https://client_2.example.com/cb"], ["userinfo", 2], ["userinfo", 5], ["introspect", "client_2", 5], ["introspect", "client_2", 6]]})
+    for _ in range({"quick": 6, "thorough": 60, "search": 40}[tier]):
+        seed = rng.getrandbits(48)
+        ops, _ = prov.gen_adaptive(random.Random(seed), rng.randint(8, 20), oidc=True, jwt=False, runner=prov.Runner(True, False, usage="rmit"),
+                                   weights={"redeem": 30, "userinfo": 14, "introspect": 12})
+        out.append({"t": "hist", "oidc": True, "jwt": False, "runner": {"usage": "rmit"}, "ops": ops})
+    return out
 
 
 def _corpus0():
